@@ -245,6 +245,9 @@ class ValueGen:
     def __init__(self, info: SpecInfo, rng, lossless: bool):
         self.info, self.rng, self.lossless = info, rng, lossless
         self.sites: list = []   # (container, key, description, thunk -> new value)
+        # some "lossless" objects carry y-diaeresis: it round-trips wherever the string is neither sanitised nor padded, and
+        # only the theorem's domain predicate (asked of the driver per pair) knows where that is
+        self.with_yuml = lossless and rng.random() < 0.3
 
     # ---- building real objects ----
     def build(self, v):
@@ -267,7 +270,7 @@ class ValueGen:
         return r.choice([0, 1, m - 1, m, r.randrange(m + 1), r.randrange(min(m, 300) + 1), r.randrange(min(m, 10) + 1)])
 
     def string(self, n):
-        a = ALPHA_LOSSLESS if self.lossless else ALPHA_FULL
+        a = (ALPHA_LOSSLESS + (["\xff", "\xff"] if self.with_yuml else [])) if self.lossless else ALPHA_FULL
         return "".join(self.rng.choice(a) for _ in range(n))
 
     def enum(self, t: Ty, avoid=()):
@@ -1489,6 +1492,21 @@ _CATALOGUE = [
       <switch field="k"><case value="1"><array name="z" type="char" optional="true"/></case><case default="true"/></switch>
       <field name="b" type="string" optional="true"/><break/>
       <field name="c" type="short" optional="true"/>
+    </chunked>
+  </struct>
+</protocol>""")]),
+    ("optional length field separated from its referent by a break (known finding C03 de:TypeError:optional-length-absent)", False, [("pub", """<protocol>
+  <struct name="OptLenArray">
+    <chunked>
+      <length name="n" type="char" optional="true"/><break/>
+      <array name="xs" type="char" length="n"/>
+    </chunked>
+  </struct>
+  <struct name="OptLenString">
+    <chunked>
+      <field name="id" type="char"/>
+      <length name="n" type="char" optional="true"/><break/>
+      <field name="s" type="string" length="n" optional="true"/>
     </chunked>
   </struct>
 </protocol>""")]),
